@@ -52,8 +52,8 @@ cfg["C04"] = {
          "thorough": P("VerifPlans", "c=2,numa=0,r=1000", "c=2,numa=0,r=500", "c=2,numa=0,r=1200", "c=2,numa=0,r=300,ms=1", "c=2,numa=0,r=250,ms=2",
                        "c=2,numa=1,r=1000", "c=2,numa=1,r=500", "c=2,numa=1,r=1200", "c=3,numa=0,r=1000", "c=3,numa=0,r=500,mp=100", "c=3,numa=1,r=1000,mp=100",
                        "c=3,numa=0,r=1200", "c=3,numa=0,r=2000", "c=4,numa=0,r=1000,mp=100", "c=4,numa=1,r=2000,mp=100", "c=2,numa=0,r=1500,sb=10,mp=30"), "samples": 2},
-        {"dir": CPUMEM, "quick": P("VerifAlloc", "c=2,numa=0,b=1,r=1000", "c=2,numa=0,b=0,r=500", "c=2,numa=1,b=0,r=500"),
-         "thorough": P("VerifAlloc", "c=2,numa=0,b=1,r=1000", "c=2,numa=0,b=0,r=500", "c=2,numa=1,b=0,r=500", "c=2,numa=0,b=1,r=500,k=2", "c=2,numa=1,b=1,r=1000,k=2",
+        {"dir": CPUMEM, "quick": P("VerifAlloc", "c=2,numa=0,b=1,r=1000", "c=2,numa=0,b=0,r=500", "c=2,numa=1,b=0,r=500", "c=2,numa=1,b=1,r=1000,k=1,ml=1,mp=100", "c=2,numa=0,b=0,r=500,ml=1"),
+         "thorough": P("VerifAlloc", "c=2,numa=0,b=1,r=1000", "c=2,numa=0,b=0,r=500", "c=2,numa=1,b=0,r=500", "c=2,numa=1,b=1,r=1000,k=1,ml=1", "c=2,numa=0,b=0,r=500,ml=1", "c=2,numa=0,b=1,r=500,k=2", "c=2,numa=1,b=1,r=1000,k=2",
                        "c=2,numa=0,b=1,r=1200", "c=3,numa=0,b=1,r=1000,mp=100"), "samples": 2},
     ],
     "bounds": sched_bounds_q + "; " + sched_bounds_t, "outside": sched_out, "assumptions": node_assume + [plugin_stubs],
@@ -191,7 +191,7 @@ cfg["C09"] = {
     "outside": "values off the grid; rounding of the final division; more than 3 plugins; Go's map iteration order is represented by the plugin permutation; call()'s real goroutine scheduling",
     "assumptions": [cob_stubs],
 }
-cfg["C08"]["runs"].append({"dir": COB, "inline_go": True, "quick": P("VerifManagerLedger", "op=0,fault=6", "op=1,fault=6", "op=2,fault=4"), "thorough": P("VerifManagerLedger", "op=0,fault=6", "op=1,fault=6", "op=2,fault=4"), "samples": 3})
+cfg["C08"]["runs"].append({"dir": COB, "inline_go": True, "quick": P("VerifManagerLedger", "op=0", "op=1", "op=2"), "thorough": P("VerifManagerLedger", "op=0", "op=1", "op=2"), "samples": 3})
 cfg["C08"]["bounds"] += "; resource-manager layer (cobalt.Manager.Alloc/RollbackAlloc/Realloc/RollbackRealloc/SetNodeResourceUsage with the real call/PCR code) over two model plugins with scalar usage, count<=2, one fault at any plugin call position"
 cfg["C07"]["runs"].append({"dir": COB, "inline_go": True, "quick": P("VerifMerge", "p=2,n=2", "p=1,n=2"), "thorough": P("VerifMerge", "p=2,n=2", "p=1,n=2", "p=3,n=2"), "samples": 2})
 
